@@ -101,6 +101,23 @@ def run(chk):
         if bo.get('stuck') or bo.get('harness_error'):
             continue
         swept += inject.sigint_sweep(sc, bo, stride=1, hi=bo['ops'][-1].get('main_points_end'))
+    # a terminal Ctrl-C goes to the whole process group: the same sweep on a history in which workers were (re)started by the pool's
+    # own threads (lifespan restarts on a kept-alive pool), with the signal delivered to every worker process as well
+    gbases = []
+    for _ in range(2 if chk.tier == 'quick' else 20):
+        nj = rng.choice([2, 3])
+        gbases.append({'seed': rng.randint(0, 10 ** 6), 'pool': {'n_jobs': nj, 'start_method': 'fork', 'keep_alive': True},
+                       'ops': [{'op': 'map', 'n': rng.randint(4, 8), 'chunk_size': 1, 'worker_lifespan': rng.choice([1, 2]), 'dur': {'kind': 'hash', 'salt': rng.randint(0, 99), 'unit': 0.01}},
+                               {'op': rng.choice(['map', 'imap_unordered']), 'n': rng.randint(3, 6), 'chunk_size': 1, 'progress_bar': rng.random() < .7,
+                                'dur': {'kind': 'hash', 'salt': rng.randint(0, 99), 'unit': 0.01}}], 'same_func': True, 'group': True})
+    gobs = inject.baseline(gbases)
+    for sc, bo in zip(gbases, gobs):
+        if bo.get('stuck') or bo.get('harness_error') or len(bo.get('ops', [])) < 2:
+            continue
+        lo = bo['ops'][0].get('main_points_end') or 1
+        for s2 in inject.sigint_sweep(sc, bo, stride=1, lo=lo, hi=bo['ops'][-1].get('main_points_end')):
+            s2['inject'][0]['group'] = True
+            swept.append(s2)
     from harness import par
     obs = par.run_all(swept)
     outcomes = {}
@@ -117,7 +134,7 @@ def run(chk):
         judge(chk, sc, o)
     chk.notes['sigint_sweep'] = {'bases': len(bases), 'injection_points': len(swept), 'outcomes': outcomes, 'exhaustive_per_base': True}
     chk.assumptions += ['delivery granularity is the scheduling point (primitive operation), not the bytecode',
-                        'children receiving a terminal Ctrl-C themselves are exercised only by the real-process tier']
+                        'a terminal Ctrl-C (signal to every process of the group) is swept on kept-alive pools whose workers were restarted by the pool\'s own threads']
 
     def search():
         pass
